@@ -1294,7 +1294,7 @@ Definition ex_minq : opts :=
   {| o_ds := false; o_refbase := None; o_minq := Some 25; o_sf1 := None; o_sl1 := None; o_sf2 := None; o_sl2 := None;
      o_d1 := 0; o_d2 := 0 |}.
 Definition ex_skipc : opts :=
-  {| o_ds := true; o_refbase := Some bA; o_minq := None; o_sf1 := Some 0; o_sl1 := None; o_sf2 := None; o_sl2 := Some 1;
+  {| o_ds := true; o_refbase := Some bA; o_minq := None; o_sf1 := Some 0; o_sl1 := None; o_sf2 := Some 1; o_sl2 := Some 1;
      o_d1 := 1; o_d2 := 0 |}.
 Lemma ex_opts_facts :
   mol_consensus skip_fixed ex_minq ex_mol = Ok [] /\
